@@ -528,3 +528,65 @@ def huge_timeouts():
                   ("quiesce",), ("eof", 1), ("eof", 0), ("quiesce",)]
             out.append(Scenario(st, name="outside-model:huge-timeout-%d-%s" % (i, tr)))
     return out
+
+
+def full_buffer_request():
+    """a request that fills the read buffer to its last byte arrives while part of an outgoing frame still waits in the write
+    buffer of the same connection; afterwards the socket becomes writable: the queued frame goes out undamaged"""
+    from . import daemon as _D
+    out = []
+
+    def padded(n, idv):
+        base = obj(method="info", id=idv)
+        k = n - len(_D.jtext(base))
+        return obj(method="info", id=idv + "p" * k) if k >= 0 else base
+    fetch = obj(method="fetch", params=obj(id="f"), id=1)
+    flen = 4 + len(_D.jtext(fetch))
+    for n in (508, 507, 506, 300, 40):
+        for budget in ("5,0:all", "1,0:all", "30,0,0:all", "4,0:all"):
+            for tr in ("raw", "uds"):
+                st = [("connect", 0, "raw", "local6"), ("connect", 1, tr, "unix" if tr == "uds" else "remote6"),
+                      ("msg", 0, obj(method="add", params=obj(path="s", value="v" * 50), id=1)),
+                      ("msg", 1, fetch),
+                      # what the connection has sent so far now adds up to exactly one read buffer: the next request starts at
+                      # the first byte of the buffer and a request of 508 bytes ends at its last
+                      ("msg", 1, padded(512 - flen - 4, "fill")),
+                      ("wmode", 1, budget),
+                      ("msg", 0, obj(method="change", params=obj(path="s", value="w" * 60), id=2)),
+                      ("msg", 1, padded(n, "q")),
+                      ("msg", 0, obj(method="change", params=obj(path="s", value="z" * 10), id=3)),
+                      ("writable", 1),
+                      ("msg", 1, obj(method="get", params=obj(), id=2)),
+                      ("quiesce",), ("eof", 1), ("eof", 0), ("quiesce",)]
+                out.append(Scenario(st, name="full-buffer-request-%d-%s-%s" % (n, budget.replace(",", "_").replace(":", "_"), tr)))
+    return out
+
+
+def ws_control_under_faults(own=True):
+    """WebSocket control frames (ping, pong, close, reserved opcodes, fragments) arrive while the daemon's writes to that peer
+    fail, block or are cut short: the peer is released once, nobody else notices.  Control frames are outside the daemon model
+    (monitor-only): judged by sanitizers, hygiene, the wire monitor and the property monitors."""
+    from . import simlog as _L
+    out = []
+    frames = [("ping", _L.ws_frame(b"hi", opcode=9)), ("ping-empty", _L.ws_frame(b"", opcode=9)), ("ping-125", _L.ws_frame(b"p" * 125, opcode=9)),
+              ("pong", _L.ws_frame(b"x", opcode=10)), ("close", _L.ws_frame(b"\x03\xe8bye", opcode=8)), ("close-empty", _L.ws_frame(b"", opcode=8)),
+              ("reserved", _L.ws_frame(b"zz", opcode=3)), ("unmasked-ping", _L.ws_frame(b"hi", opcode=9, masked=False)),
+              ("garbage-text", _L.ws_frame(b"{broken", opcode=1)), ("two-pings", _L.ws_frame(b"a", opcode=9) + _L.ws_frame(b"b", opcode=9))]
+    for fname, fr in frames:
+        for mode in ("err", "eagain", "0,0:err", "1,0:all", "all"):
+            st = [("connect", 0, "raw", "local6"), ("connect", 1, "ws", "remote6"), ("connect", 2, "raw", "remote6"),
+                  ("msg", 0, obj(method="add", params=obj(path="s", value=1), id=1)),
+                  ("msg", 1 if own else 0, obj(method="add", params=obj(path="w", value=1), id=1 if own else 7)),
+                  ("msg", 1, obj(method="fetch", params=obj(id="f"), id=2)),
+                  ("msg", 2, obj(method="fetch", params=obj(id="g"), id=1)),
+                  ("msg", 2, obj(method="set", params=obj(path="w", value=2), id="r1")),
+                  ("wmode", 1, mode),
+                  ("partial", 1, fr),
+                  ("msg", 0, obj(method="change", params=obj(path="s", value=2), id=2)),
+                  ("partial", 1, fr),
+                  ("writable", 1),
+                  ("msg", 2, obj(method="get", params=obj(), id=2)),
+                  ("advance", 6 * 10 ** 9),
+                  ("quiesce",), ("eof", 1), ("eof", 0), ("eof", 2), ("quiesce",)]
+            out.append(Scenario(st, name="outside-model:ws-control-%s-%s-%s" % (fname, mode.replace(",", "_").replace(":", "_"), "owner" if own else "subscriber")))
+    return out
